@@ -113,6 +113,13 @@ def run_case(case, ctx):
     cfg = run.cfg
     verb, pid = case["verb"], case["pid"]
     rootC = run.root                      # client copy
+    # staging files of ANOTHER process that is in the middle of a store (objects/tmp, metadata/tmp, refs/tmp): neither
+    # the API call nor the client verb may touch them (the state comparison below includes such residue)
+    if verb != "create" and case.get("inflight", True):
+        for sub, body in (("objects", b"half of somebody else's object"), ("metadata", b"<somebody-else/>"), ("refs", b"0" * 64)):
+            d = os.path.join(rootC, sub, "tmp")
+            if os.path.isdir(d):
+                common.write_file(os.path.join(d, "tmpinflight0"), body)
     rootA = os.path.join(run.work, "api")  # API copy
     shutil.copytree(rootC, rootA)
     desc = {"verb": verb, "pid": pid, "opts": case.get("opts"), "prior": [o["op"] + ":" + str(o.get("pid")) for o in case["ops"]]}
